@@ -114,7 +114,7 @@ func genFmtCase(r *Rng, wellFormed bool) fmtCase {
 }
 
 func checkC15(ctx *Ctx) {
-	ctx.Res.Rule = "patterns drawn from a grammar (literal chunks incl. awk braces x placeholders of type i/o/os/p/t x modifier chains from an 18-element pool x optional join separators, repeated placeholders), values from the path alphabet and beyond; a well-formed stream and a malformed stream (stray braces, unknown types, empty names, empty / missing parameter and tag values, brace-carrying values); requests fmtcmd, setout, defpath, mods, placeholders, ports; every request goes to the real code (in-process worker; scipipe.Fail = worker exit 1 = FAIL) and to the Lean model; non-trivial = pattern contains a placeholder; distinct by request line."
+	ctx.Res.Rule = "patterns drawn from a grammar (literal chunks incl. awk braces x placeholders of type i/o/os/p/t x modifier chains from an 18-element pool x optional join separators, repeated placeholders), values from the path alphabet and beyond; a well-formed stream and a malformed stream (stray braces, unknown types, empty names, empty / missing parameter and tag values, brace-carrying values); requests fmtcmd, setout, defpath, mods, placeholders, ports; every request goes to the real code (in-process worker; scipipe.Fail = worker exit 1 = FAIL) and to the Lean model; non-trivial = pattern contains a placeholder; distinct by request line; on the real result alone: a formed command with a missing or empty parameter / tag value is a violation; default names of a process with several out-ports equal the names each port gets alone."
 	w := &Worker{}
 	defer w.Close()
 	r := NewRng(ctx.Seed)
